@@ -112,6 +112,8 @@ def layout(toks, rng, mode, units=False):
             required = a in ("+", "-", "to") or tk in ("+", "-", "to")
             if units and (a in ("*", "/", "^", "**") or tk in ("*", "/", "^", "**")):
                 required = True
+            if a == ")" and tk in ("*", "/", "^", "**", "to"):
+                required = False      # a closing parenthesis ends whatever unit stands before it: `(10 J to N m)*2`, `(1 kWh to W s)to J`
             tight_ok = not required
             binary = a in ("+", "-", "*", "/", "^", "**", "to") or tk in ("+", "-", "*", "/", "^", "**", "to")
             if mode == "single":
@@ -294,6 +296,40 @@ def gen_to(rng):
         return ("bin", rng.choice("+-"), a, ("to", b, u1))                                  # a + (b to u)
     return ("to", ("bin", rng.choice("+-"), ("bin", rng.choice("+-"), a, b), c), u1)       # a + b - c to u
 
+# casts to compound units written as blank-separated components, inside parentheses or call arguments, followed by more operators
+# (seed C06-g: the blank bookkeeping of the unit parser leaks into the operator loop only for a target of >= 2 components that is
+# directly followed by `)` and an operator): (source text, target components, exact factor)
+CASTS2 = [("J", ["N", "m"], 1), ("kWh", ["W", "s"], 3600000), ("km h", ["m", "s"], 3600000), ("N s", ["kg", "m/s"], 1), ("W", ["J/s"], 1),
+          ("J", ["kg", "m^2/s^2"], 1), ("C", ["A", "s"], 1), ("Wh", ["J"], 3600), ("N m", ["J"], 1), ("V A s", ["N", "m"], 1),
+          ("Pa m^2", ["kg", "m", "s^-2"], 1), ("km", ["m"], 1000)]
+
+def gen_cast2(rng):
+    """Returns (token list, exact value or None when only layout agreement is judged)."""
+    src, comps, f = rng.choice(CASTS2)
+    x, k = rng.randint(1, 40), rng.randint(2, 9)
+    tgt = rng.choice([" ", " ", "  ", "\t"]).join(comps)
+    cast = ["%d %s" % (x, src), "to", tgt]
+    form = rng.randint(0, 8)
+    v = Fraction(x * f)
+    if form == 0:
+        return ["("] + cast + [")", "*", str(k)], v * k
+    if form == 1:
+        return ["("] + cast + [")", "/", str(k)], v / k
+    if form == 2:
+        return [str(k), "*", "("] + cast + [")"], v * k
+    if form == 3:
+        fn = rng.choice(["round", "floor", "ceil"])
+        return [fn + "("] + cast + [")", rng.choice(["*", "/"]), "1"], v
+    if form == 4:
+        return ["round("] + cast + [",", str(rng.randint(0, 3)), ")", "*", str(k)], v * k
+    if form == 5:
+        return ["("] + cast + [")", "to", src], Fraction(x)
+    if form == 6:
+        return ["(", "("] + cast + [")", ")", "*", str(k)], v * k
+    if form == 7:
+        return ["("] + cast + [")", "^", "2"], v * v
+    return [str(k), "+", "("] + cast + [")", "*", "3", "^", "2", "-", str(k)], v * 9
+
 def ev_calls(t):
     """exact.ev for trees that also contain ('call', 'round', [x])."""
     if t[0] == "call":
@@ -319,6 +355,27 @@ def shard_misc(p):
                     text = layout(tk, rng, mode, units=True)
                     reqs.append({"op": "query", "q": text})
                     meta.append(("to:" + style + ":" + mode, text, (v, PARTS[u]), 2))
+        cast2 = []
+        for _ in range(p["n_to"]):
+            tk, v = gen_cast2(rng)
+            cast2.append((tk, v, [layout(tk, rng, m, units=True) for m in ("single", "tight", "tight", "random", "random", "unicode")]))
+        try:
+            creps = d.call_many([{"op": "query", "q": ls[0]} for _, _, ls in cast2], timeout=300)
+        except (DriverDied, DriverTimeout) as ex:
+            acc.inconc("driver: %r" % (ex,))
+            d.restart()
+            creps = []
+        for (tk, v, ls), rep in zip(cast2, creps):
+            # canonical layout first: its value is judged exactly, its unit is what every other layout must reproduce
+            its = rep.get("items") or []
+            parts = its[0]["ok"]["u"] if len(its) == 1 and "ok" in its[0] else []
+            acc.evaluations += 1
+            acc.count("family_cast2")
+            if judge(acc, ls[0], (v, parts), rep, "cast2:single", {"build": p["kind"]}):
+                for text, mode in zip(ls[1:], ("tight", "tight", "random", "random", "unicode")):
+                    if text != ls[0]:
+                        reqs.append({"op": "query", "q": text})
+                        meta.append(("cast2:" + mode, text, (v, parts), 2))
         for _ in range(p["n_fn"]):
             # parenthesised / nested expressions as function arguments
             e = exact.gen_tree(rng, rng.randint(1, 3), max_digits=3, max_exp=0, ops="+-*/")
